@@ -311,7 +311,7 @@ pub struct VerifManager {
     shared: Arc<Mutex<Shared>>,
     next_connection_id: Arc<std::sync::atomic::AtomicUsize>,
     /// permits of substream-open requests the connection has read but not answered
-    open_requests: HashMap<usize, (ProtocolName, crate::protocol::Permit)>,
+    open_requests: HashMap<usize, (ProtocolName, crate::protocol::Permit, bool)>,
 }
 
 impl VerifManager {
@@ -545,10 +545,14 @@ impl VerifManager {
                 substream_id,
                 connection_id,
                 permit,
+                keep_alive,
                 ..
             })) => {
                 let raw = substream_id.verif_raw();
-                self.open_requests.insert(raw, (protocol.clone(), permit));
+                self.open_requests.insert(
+                    raw,
+                    (protocol.clone(), permit, matches!(keep_alive, SubstreamKeepAlive::Yes)),
+                );
                 Some(ConnCommand::OpenSubstream {
                     protocol,
                     substream_id: raw,
@@ -560,7 +564,7 @@ impl VerifManager {
 
     /// Answers a substream-open request with a failure carrying `substream_id`.
     pub fn answer_open_failure(&mut self, id: usize, substream_id: usize) -> Result<(), String> {
-        let (protocol, _permit) =
+        let (protocol, _permit, _) =
             self.open_requests.remove(&substream_id).ok_or("no such open request")?;
         let mut shared = self.shared.lock();
         let connection = shared.live.get_mut(&id).ok_or("no such live connection")?;
@@ -581,17 +585,19 @@ impl VerifManager {
         substream_id: usize,
         stream: crate::yamux::Stream,
     ) -> Result<(), String> {
-        let (protocol, permit) =
+        let (protocol, permit, keep_alive) =
             self.open_requests.remove(&substream_id).ok_or("no such open request")?;
         let mut shared = self.shared.lock();
         let connection = shared.live.get_mut(&id).ok_or("no such live connection")?;
         let peer = connection.peer;
         let codec = connection.protocol_set.protocol_codec(&protocol);
-        let substream = super::substream::substream_from_yamux(
+        // as `TcpConnection::handle_negotiated_substream`: keep-alive protocols' substreams hold the connection
+        let substream = super::substream::substream_from_yamux_with_permit(
             peer,
             SubstreamId::from(substream_id),
             stream,
             codec,
+            keep_alive.then(|| permit.clone()),
         );
         tokio::task::unconstrained(connection.protocol_set.report_substream_open(
             peer,
@@ -617,8 +623,17 @@ impl VerifManager {
         let peer = connection.peer;
         let permit = connection.protocol_set.try_get_permit().ok_or("no permit")?;
         let codec = connection.protocol_set.protocol_codec(&protocol);
-        let substream =
-            super::substream::substream_from_yamux(peer, SubstreamId::from(0usize), stream, codec);
+        let keep_alive = matches!(
+            connection.protocol_set.protocols_with_keep_alives().get(&protocol),
+            Some(SubstreamKeepAlive::Yes)
+        );
+        let substream = super::substream::substream_from_yamux_with_permit(
+            peer,
+            SubstreamId::from(0usize),
+            stream,
+            codec,
+            keep_alive.then(|| permit.clone()),
+        );
         tokio::task::unconstrained(connection.protocol_set.report_substream_open(
             peer,
             protocol,
